@@ -1,5 +1,6 @@
 import Driver.Util
 import Driver.Ops.Label
+import Driver.Ops.Dec
 /-!
 Model driver: reads operation lines `op args… => impl-result` on stdin,
 recomputes the right-hand side with the Lean model and prints
@@ -13,7 +14,7 @@ Each `Driver/Ops/*.lean` module contributes a handler
 namespace Driver
 
 def handlers : List (String → List String → Option (Option String)) :=
-  [Ops.label]
+  [Ops.label, Ops.dec]
 
 /-- model result for one operation, or `none` if the line is not understood -/
 def runOp (op : String) (args : List String) : Option String :=
